@@ -677,7 +677,8 @@ impl PeerManager {
                     }
                 }
 
-                let o: Option<&mut Vec<TokenType>> = self.allowed_token.get_mut(&token);
+                let invite_token = MeetingSecret::derive_token(DERIVE_STRING, &owned.id);
+                let o: Option<&mut Vec<TokenType>> = self.allowed_token.get_mut(&invite_token);
                 if let Some(tokens) = o {
                     let index = tokens.iter().position(|tt| {
                         if let TokenType::OwnedInvite(owned_tok) = tt {
@@ -695,7 +696,8 @@ impl PeerManager {
                     OwnedInvite::list_valid(room_id.clone(), &self.services.database).await?;
             }
             TokenType::Invite(invite) => {
-                let o = self.allowed_token.get_mut(&token);
+                let invite_token = MeetingSecret::derive_token(DERIVE_STRING, &invite.invite_id);
+                let o = self.allowed_token.get_mut(&invite_token);
                 if let Some(tokens) = o {
                     let index = tokens.iter().position(|tt| {
                         if let TokenType::Invite(i) = tt {
